@@ -3,6 +3,7 @@
 // With everything disarmed the layer only counts.
 #pragma once
 #include <cstddef>
+#include <string>
 
 namespace simdisk {
 
@@ -31,6 +32,9 @@ struct Ctl {
 };
 
 Ctl &ctl();
+// result of the I/O the worker performs during static initialisation (sim/main/main.cpp)
+const std::string &earlyBytes();
+bool earlyRoundTrip();
 bool linked(); // true when the wrap layer is part of this binary and libstdc++ is routed through it
 
 inline void disarm() {
